@@ -48,19 +48,19 @@ CHECKS = {
          "After every backup, interrupted backup, delete and gc of generated histories (options chosen to produce every layout, wide and deep trees, a 10 051-hunk band, backups under a file-size limit (writes failing part-way), stored files above 2 MiB, and backups during which files of the source are truncated, extended, replaced or removed underneath) an independent reader built from doc/format.md re-derives every invariant in the statement from the raw files.",
          "Trusted: snap, serde_json, blake2-rfc; the reader follows the code where the document and the code disagree on a key name (len vs length).", "3 C13"),
  "C14": ("fault_enumeration", "runtime monitor: block-write events from the interceptor log (with pre-states) over histories; every crash point of an interrupted run followed by a resumed run",
-         "Write events under d/ are observed at the storage boundary: zero for an unchanged tree with identical decoded addresses, never for an existing non-empty block in any history, and for EVERY crash point of the interrupted run the resumed run writes none of the blocks left behind and reuses every recorded entry; scenarios with 9-20 MiB blocks and duplicate large content, far and future mtimes, a tree of more than 10 000 hunks, second backups with the owner option switched off and a hunk of tens of megabytes are included.",
+         "Write events under d/ are observed at the storage boundary: zero for an unchanged tree with identical decoded addresses, never for an existing non-empty block in any history, and for EVERY crash point of the interrupted run the resumed run writes none of the blocks left behind and reuses every recorded entry; scenarios with 9-20 MiB blocks and duplicate large content, far and future mtimes, a tree of more than 10 000 hunks, second backups with the owner option switched off, archives in which another program has left files of its own (.DS_Store beside the bands, in a band, in its index directory) and a hunk of tens of megabytes are included.",
          "Trusted: interceptor sees every write attempt; E2 reader.", "3 C14"),
  "C15": ("exploration", "runtime monitor: stored / listed / restored path sets under exclusions vs an independent glob oracle",
-         "Generated trees x pattern sets (anchored, unanchored, wildcards, classes, alternation, '**' as a component and glued to a name, other-case names, directories with children, non-ASCII, long lists, combined with a subtree selection, directories of hundreds of mostly-excluded files, more than a thousand excluded directories): the three code paths (walk pruning at backup, per-entry filter at list and at restore) are observed and each compared with the rule 'omitted iff it or an ancestor matches' evaluated by globs built from the raw patterns.",
+         "Generated trees x pattern sets (anchored, unanchored, wildcards, classes, alternation, '**' as a component and glued to a name, other-case names, names and patterns beginning with '#', directories with children, non-ASCII, long lists, combined with a subtree selection, directories of hundreds of mostly-excluded files, more than a thousand excluded directories): the three code paths (walk pruning at backup, per-entry filter at list and at restore) are observed and each compared with the rule 'omitted iff it or an ancestor matches' evaluated by globs built from the raw patterns.",
          "Trusted: globset for what one glob matches; E2 reader for the stored entries.", "3 C15"),
  "C16": ("exploration", "runtime monitor: lstat+content+ctime snapshots of the area around the destination before/after every restore, incl. stitched versions with entries below a symlink",
-         "Source trees full of symlinks aimed at sentinel files and directories beside the destination (relative, absolute, '..', '/') are backed up and restored under several selections and destination states while a recursive snapshot including ctime watches everything outside the destination; non-empty destinations must be refused untouched; a version is restored with overwrite over a restore of another version in which its directories and files were symlinks; versions stitched (from two and three bands) from backups killed after a directory became a symlink are restored too.",
+         "Source trees full of symlinks aimed at sentinel files and directories beside the destination (relative, absolute, '..', '/') are backed up and restored under several selections and destination states while a recursive snapshot including ctime watches everything outside the destination; non-empty destinations must be refused untouched; a version is restored with overwrite over a restore of another version in which its directories and files were symlinks; versions stitched (from two and three bands) from backups killed after a directory became a symlink (leading outside directly, or only by way of a link or directory that the same restore creates later) are restored too.",
          "Trusted: ctime as witness of metadata writes through links; links in a pre-populated destination come only from restoring another version of the same archive.", "3 C16"),
  "C17": ("exploration", "runtime monitor: lock-step replay of histories into replica archives on differently scheduled runtimes, byte comparison after every step",
-         "Each generated history is executed from the same on-disk source states into a reference archive (current-thread runtime) and into replicas on 2- and 8-worker runtimes with random yields and sleeps before every storage operation; after every step the full directory trees must be byte-identical modulo head/tail timestamps; histories include deletes during which the removal of one particular block fails, a tree of more than 10 000 hunks, a replay before and after the wall clock passes a file's mtime, and replays on storage with a stalled operation (real time and tokio's virtual clock).",
+         "Each generated history is executed from the same on-disk source states into a reference archive (current-thread runtime) and into replicas on 2- and 8-worker runtimes with random yields and sleeps before every storage operation and, in every second history, with trace-level diagnostics switched on (a tracing subscriber that takes and discards everything on the replicas' threads); after every step the full directory trees must be byte-identical modulo head/tail timestamps; histories include deletes during which the removal of one particular block fails, index hunks garbled identically in every copy, a tree of more than 10 000 hunks, a replay before and after the wall clock passes a file's mtime, and replays on storage with a stalled operation (real time and tokio's virtual clock).",
          "Scheduling diversity comes from runtime flavour, worker count and injected jitter; no separate-process replay.", "3 C17"),
  "C18": ("exploration", "runtime monitor: diff stream and backup change callback vs classification computed from two lstat snapshots",
-         "Generated trees and mutation sets; diff(version, tree) with and without include_unchanged must equal, entry for entry and in order, the classification computed independently from the harness's snapshots, and the next backup's change callback must name the same added/changed/deleted files; owners with an unnamed user or group, fifos and sockets, a diff with an exclusion and a version with more than 10 000 hunks are included.",
+         "Generated trees and mutation sets; diff(version, tree) with and without include_unchanged must equal, entry for entry and in order, the classification computed independently from the harness's snapshots, and the next backup's change callback must name the same added/changed/deleted files; owners with an unnamed user or group, fifos and sockets, a diff with an exclusion, a SourceTree handle kept across the changes (with the top directory's own mode changed) and a version with more than 10 000 hunks are included.",
          "Trusted: harness walker; named uid/gid mapping is one-to-one.", "3 C18"),
 }
 
